@@ -891,10 +891,10 @@ fn relevant_to(sc: &Scenario, t: &Tid, path: &str) -> bool {
         for rp in paths {
             // only paths that existed when watching began are watched at all (the kernel resolves
             // `a/up/..` component by component: `a/up` has to exist)
-            if !existed_at_start(sc, &format!("{}/{}", dir, rp)) {
-                continue;
-            }
-            let base = lexical_normalise(&PathBuf::from(format!("{}/{}", dir, rp)));
+            let base = match resolve_in_scenario(sc, &format!("{}/{}", dir, rp)) {
+                Some(b) => b,
+                None => continue,
+            };
             if p == base || p.starts_with(&base) {
                 if exts.is_empty() || exts.iter().any(|e| name.ends_with(e.as_str())) {
                     return true;
@@ -905,44 +905,51 @@ fn relevant_to(sc: &Scenario, t: &Tid, path: &str) -> bool {
     false
 }
 
-/// Does `declared` (relative to the case root, possibly with `..` components) name something
-/// in the scenario's initial tree, every intermediate component included?
-fn existed_at_start(sc: &Scenario, declared: &str) -> bool {
+/// Resolves `declared` (relative to the case root) the way the kernel does, against the
+/// scenario's initial tree: component by component, following symbolic links as they are met, so
+/// that `link/..` is the parent of what the link points to, not of the link. None: some component
+/// did not exist when the session began (such a path is not watched at all).
+fn resolve_in_scenario(sc: &Scenario, declared: &str) -> Option<PathBuf> {
     let in_tree = |cur: &Path| -> bool {
         let c = cur.to_string_lossy().into_owned();
         c.is_empty() || sc.projects.iter().any(|p| p.dir == c || p.dir.starts_with(&format!("{}/", c))) || sc.files.iter().any(|f| f.path == c || f.path.starts_with(&format!("{}/", c)))
     };
+    let link_at = |cur: &Path| -> Option<String> {
+        let c = cur.to_string_lossy().into_owned();
+        sc.files.iter().find_map(|f| match &f.kind {
+            FileKind::Symlink(t) if f.path == c => Some(t.clone()),
+            _ => None,
+        })
+    };
     let mut cur = PathBuf::new();
-    for comp in Path::new(declared).components() {
-        match comp {
-            std::path::Component::ParentDir => {
+    let mut todo: Vec<String> = Path::new(declared).components().rev().map(|c| c.as_os_str().to_string_lossy().into_owned()).collect();
+    let mut hops = 0;
+    while let Some(comp) = todo.pop() {
+        match comp.as_str() {
+            "." | "/" => {}
+            ".." => {
                 cur.pop();
             }
-            std::path::Component::CurDir => {}
-            other => {
-                cur.push(other.as_os_str());
+            name => {
+                cur.push(name);
+                if let Some(target) = link_at(&cur) {
+                    hops += 1;
+                    if hops > 16 {
+                        return None;
+                    }
+                    cur.pop();
+                    for c in Path::new(&target).components().rev() {
+                        todo.push(c.as_os_str().to_string_lossy().into_owned());
+                    }
+                    continue;
+                }
                 if !in_tree(&cur) {
-                    return false;
+                    return None;
                 }
             }
         }
     }
-    true
-}
-
-/// `a/b/../c` -> `a/c` (the generated trees have no symbolic links on declared directories)
-fn lexical_normalise(p: &Path) -> PathBuf {
-    let mut out = PathBuf::new();
-    for c in p.components() {
-        match c {
-            std::path::Component::ParentDir => {
-                out.pop();
-            }
-            std::path::Component::CurDir => {}
-            other => out.push(other.as_os_str()),
-        }
-    }
-    out
+    Some(cur)
 }
 
 fn op_paths(op: &FsOp) -> Vec<String> {
@@ -997,11 +1004,23 @@ impl Property for C16 {
             // every eighth target names its directory through a path ending in `..`: notify reports
             // events under the path as given, and an event on the directory itself (touch, chmod)
             // carries exactly that path - which has no final component
-            let d = if rng.chance(12) {
-                files.push(FileSpec { path: format!("p0/{}/up", d), kind: FileKind::Dir });
-                format!("{}/up/..", d)
-            } else {
-                d
+            let d = match rng.weighted(&[78, 12, 10]) {
+                1 => {
+                    files.push(FileSpec { path: format!("p0/{}/up", d), kind: FileKind::Dir });
+                    format!("{}/up/..", d)
+                }
+                2 => {
+                    // through a symbolic link and back up: `jump/..` is the parent of what the
+                    // link points to (the kernel's reading), not the directory holding the link
+                    files.push(FileSpec { path: format!("p0/{}/up", d), kind: FileKind::Dir });
+                    files.push(FileSpec { path: format!("p0/jump_{}", name), kind: FileKind::Symlink(format!("{}/up", d)) });
+                    if rng.chance(50) {
+                        format!("jump_{}/..", name)
+                    } else {
+                        format!("jump_{}/../../{}", name, name)
+                    }
+                }
+                _ => d,
             };
             if rng.chance(25) {
                 // the same directory declared twice with different filters
@@ -1106,6 +1125,11 @@ impl Property for C16 {
                 _ => FsOp::Create { path: format!("{}/fresh{}.c", sub, b), content: format!("fresh {}\n", b) },
             };
             inv.plan.events.push(PlanEvent { id: format!("e{}", b), kind: PlanEventKind::Fs { ops: vec![op] }, gate: Gate::Quiescence(b as u32 + 1) });
+        }
+        if rng.chance(15) {
+            // the kernel's queue overflows once during the session (a burst of thousands of files
+            // nobody declared): notify reports a path-less event, later changes still count
+            inv.plan.faults.push(simrt::plan::Fault { site: "notify.rescan".into(), occurrence: rng.range(1, 6) as u32, kind: "overflow".into() });
         }
         // a last, certainly relevant, in-place change to a file that existed at start
         let f = rng.pick(&existing).clone();
